@@ -22,7 +22,7 @@ from __future__ import annotations
 from ..model import ANALYSIS
 from ..spec import dalvik
 from ..xref_engine import (Engine, XrefModel, XrefRules, Collector, Mut, rule_registration, rule_add_method_invariant,
-                           rule_resolve, rule_call_graph, rule_ref_type_members, run_mutants,
+                           rule_resolve, rule_call_graph, rule_ref_type_members, rule_fill_before_xref, Exec, run_mutants,
                            m_swap_args, m_set_arg, m_set_receiver, m_rename_call, m_delete_call, m_const, m_replace_src, m_seq, b_rename_local)
 
 # the thorough tier runs its own in-memory mutation adequacy (MUTANTS / BENIGN below, via xref_engine.run_mutants)
@@ -35,7 +35,11 @@ def core(sink, eng):
     xr.run(("method",))
     rule_registration(sink, xm, "methods")
     rule_add_method_invariant(sink, eng)
-    rule_resolve(sink, eng)
+    table = rule_resolve(sink, eng)
+    fr = eng.func(ANALYSIS, "Analysis._resolve_method")
+    rs = [(fr, [s for s in Exec(eng, root_cls=eng.mod(ANALYSIS).cls("Analysis")).run(fr) if not s.raised])]
+    # the lookup table must be complete (all DEX files) before the first _create_xref call
+    rule_fill_before_xref(sink, eng, xm, rs, only_tables={table})
     rule_call_graph(sink, eng, xm.getters)
     rule_ref_type_members(sink, eng, dalvik.INVOKE_OPS)
     xr.sites_floor(4)
